@@ -121,7 +121,53 @@ def prop_overlap(ctx, case):
     ctx.note([x, y, ex, ey, crossing], nontrivial=True, classes=['overlap', 'crossing' if crossing else 'nested'])
 
 
-PROPS = {'result': prop_result, 'overlap': prop_overlap}
+def prop_single_all(ctx, case):
+    """a call logged as ONE record with both qualifier bits (START|END): the record is its own END record"""
+    name, seed, err = case['name'], case['seed'], case['err']
+    dw = distinct_words(name, seed)
+    if dw is None:
+        return
+    a = list(dw[0])
+    a[0] = err
+    d = domains.project(name, 3, a)
+    if [int.from_bytes(d[8 * i:8 * i + 8], 'little') for i in range(4)] != a:
+        return      # word 0 is enum-valued for this decoder
+    p = EV.new_traces_parser()
+    out = [t for t in guard(lambda: list(p.feed_generator(EV.realize([EV.E(0x33, name, 3, args=a)]))))]
+    if len(out) != 1:
+        raise Violation(f'call-count:{name}', f'{name}: {len(out)} traces for one START|END record')
+    from .c09 import text_of
+    txt = guard(text_of, name, out[0])
+    sc = TP.split_call(txt)
+    rest = sc[2] if sc else txt
+    m = ERRNO_RE.match(rest)
+    if err and (not m or int(m.group('c1') or m.group('c2')) != err):
+        raise Violation(f'error-not-reported:{name}', f'{name} logged as one START|END record with error word {err}: result part {rest!r}; text={txt!r}')
+    if not err and 'errno' in rest:
+        raise Violation(f'errno-without-error:{name}', f'{name} logged as one START|END record with error word 0: {rest!r}')
+    ctx.note([name, 'all', err], nontrivial=bool(err), classes=['single-start-end-record', 'error' if err else 'success'])
+
+
+def prop_call_invariant(ctx, case):
+    """the call part (name and parameters, with up to seven looked-up paths) is the same whether the call failed or not"""
+    name, seed, nlook = case['name'], case['seed'], case['lookups']
+    dw = distinct_words(name, seed)
+    if dw is None:
+        return
+    a, e = dw
+    lookups = [b'/inv%d/%s' % (i, domains.ascii_text((seed, i, 5, 6), 30).replace(b'.', b'_')) for i in range(nlook)]
+    parts = []
+    for err in (0, case['err']):
+        sc = TP.split_call(guard(render, name, a, [err] + e[1:], lookups))
+        if sc is None:
+            raise Violation(f'call-shape:{name}', f'{name} with {nlook} lookups')
+        parts.append((sc[0], sc[1]))
+    if parts[0] != parts[1]:
+        raise Violation(f'call-part-depends-on-end:{name}', f'{name} with {nlook} lookups: succeeded {parts[0]}, failed with {case["err"]} {parts[1]}')
+    ctx.note([name, nlook, case['err']], nontrivial=nlook >= 2, classes=['call-part-invariance', f'lookups:{nlook}'])
+
+
+PROPS = {'result': prop_result, 'overlap': prop_overlap, 'single_all': prop_single_all, 'call_invariant': prop_call_invariant}
 
 
 def names():
@@ -153,6 +199,12 @@ def run(ctx):
     magic_cases = [{'name': n, 'seed': base + 3 * j + k, 'err': [13, 2, 2 ** 31, 0][(j + k) % 4], 'nested': 0, 'force': [k, v], 'magic': True}
                    for n in ns for j, v in enumerate(magic.get(n, [])) for k in range(4)]
     ctx.run_enum('result', magic_cases, prop_result, exhaustive_label='every decoder x every integer constant reachable from its own code x 4 START slots')
+    alls = [{'name': n, 'seed': base + 23 * i + r, 'err': [13, 0, 2, 35, 2 ** 31, 9][(i + r + ctx.seed) % 6]} for r in range(ctx.n(2, 12)) for i, n in enumerate(ns)]
+    ctx.run_enum('single_all', alls, prop_single_all, exhaustive_label='every non-exempt BSD decoder as one START|END record')
+    from .. import pathparams as PP
+    inv = [{'name': n, 'seed': base + 29 * i + k, 'lookups': k, 'err': [2, 13, 85, 1][(i + k) % 4]} for i, n in enumerate(x for x in ns if x in PP.PATH_PARAMS or x in PP.SPECIAL)
+           for k in ((6, 7, 3) if ctx.quick else range(8))]
+    ctx.run_enum('call_invariant', inv, prop_call_invariant, exhaustive_label='every path-taking decoder x 3 / 6 / 7 (thorough 0..7) lookups: failed vs succeeded')
     ov = st.fixed_dictionaries({'x': st.sampled_from(ns), 'y': st.sampled_from(ns), 'seed': st.integers(0, 2 ** 62),
                                 'ex': st.sampled_from([0, 9, 13, 35]), 'ey': st.sampled_from([0, 1, 2, 60]), 'crossing': st.booleans()})
     ctx.run_given('overlap', ov, prop_overlap, ctx.n(500, 10000))
